@@ -16,6 +16,7 @@ import (
 	"reflect"
 	"regexp"
 	"sort"
+	"strconv"
 	"strings"
 
 	"gorm.io/driver/sqlite"
@@ -190,7 +191,8 @@ type FieldIn struct {
 	HasDef    bool   `json:"hasdef"`
 	DefI      string `json:"defi"` // "" none | "int" | "str" | "bool": DefaultValueInterface built from Default
 	Default   string `json:"default"`
-	GType     string `json:"gtype"` // time | bool | other
+	GType     string `json:"gtype"`            // time | bool | num (Int/Uint/Float) | other
+	Parsed    string `json:"parsed,omitempty"` // fmt.Sprint(DefaultValueInterface) of a num field (round cases)
 	Comment   string `json:"comment"`
 	Unique    bool   `json:"unique"`
 }
@@ -242,14 +244,19 @@ func mkField(fi FieldIn) *schema.Field {
 		f.GORMDataType = schema.Time
 	case "bool":
 		f.GORMDataType = schema.Bool
+	case "num":
+		f.GORMDataType = schema.Int
 	default:
 		f.GORMDataType = schema.String
 	}
 	switch fi.DefI {
 	case "int":
-		var n int64
-		fmt.Sscan(fi.Default, &n)
+		n, _ := strconv.ParseInt(fi.Default, 0, 64) // as ParseField does: base 0
 		f.DefaultValueInterface = n
+	case "float":
+		x, _ := strconv.ParseFloat(fi.Default, 64)
+		f.DefaultValueInterface = x
+		f.GORMDataType = schema.Float
 	case "str":
 		f.DefaultValueInterface = fi.Default
 	case "bool":
@@ -298,11 +305,11 @@ var dtypes = []string{"varchar(100)", "VARCHAR(64)", "varchar", "bigint", "integ
 	"bigint unsigned", "  text  ", "enum('a','b')", "bit(1)", "varchar(255)", "int(11)", "smallint"}
 var rtypes = []string{"varchar", "VARCHAR", "bigint", "integer", "int", "INT", "decimal", "numeric", "text", "TEXT", "datetime",
 	"boolean", "bool", "char", "float", "double", "blob", "varchar(100)", "bit", "smallint", "enum", "character varying", "int4", ""}
-var defaults = []string{"", "0", "1", "18", "true", "false", "TRUE", "t", "NULL", "null", "n/a", "'x'", "now()", "NOW", "current_timestamp()",
+var defaults = []string{"+5", "5", "0x10", "16", "1.50", "1.5", "-7", "007", "", "0", "1", "18", "true", "false", "TRUE", "t", "NULL", "null", "n/a", "'x'", "now()", "NOW", "current_timestamp()",
 	"CURRENT_TIMESTAMP", "(-)", "abc", "0.5"}
 
 func genDecide(r *lib.Rng, edge bool) (FieldIn, RepIn) {
-	fi := FieldIn{DType: lib.Pick(r, dtypes), GType: lib.Pick(r, []string{"other", "other", "time", "bool"})}
+	fi := FieldIn{DType: lib.Pick(r, dtypes), GType: lib.Pick(r, []string{"other", "other", "time", "bool", "num", "num"})}
 	ri := RepIn{}
 	// reported type: mostly related to the declared one
 	base := strings.ToLower(strings.TrimSpace(fi.DType))
@@ -351,6 +358,9 @@ func genDecide(r *lib.Rng, edge bool) (FieldIn, RepIn) {
 	fi.Default = lib.Pick(r, defaults)
 	if fi.HasDef && r.Chance(1, 3) {
 		fi.DefI = lib.Pick(r, []string{"int", "str", "bool"})
+		if fi.GType == "num" {
+			fi.DefI = lib.Pick(r, []string{"int", "int", "float"})
+		}
 	}
 	if !fi.HasDef && r.Chance(2, 3) {
 		fi.Default = ""
@@ -382,6 +392,19 @@ func genDecide(r *lib.Rng, edge bool) (FieldIn, RepIn) {
 // ---- Gallina ----
 func gField(name string, fi FieldIn, full, dtype string) string {
 	g := map[string]string{"time": "GTime", "bool": "GBool"}[fi.GType]
+	if fi.GType == "num" {
+		g = "(GNum None)"
+		switch {
+		case fi.Parsed != "":
+			g = "(GNum (Some " + lib.Str(fi.Parsed) + "))"
+		case fi.DefI == "int":
+			n, _ := strconv.ParseInt(fi.Default, 0, 64)
+			g = "(GNum (Some " + lib.Str(fmt.Sprint(n)) + "))"
+		case fi.DefI == "float":
+			x, _ := strconv.ParseFloat(fi.Default, 64)
+			g = "(GNum (Some " + lib.Str(fmt.Sprint(x)) + "))"
+		}
+	}
 	if g == "" {
 		g = "GOther"
 	}
@@ -477,6 +500,11 @@ func fieldIn(f *schema.Field) FieldIn {
 		fi.GType = "time"
 	case schema.Bool:
 		fi.GType = "bool"
+	case schema.Int, schema.Uint, schema.Float:
+		fi.GType = "num"
+		if f.DefaultValueInterface != nil {
+			fi.Parsed = fmt.Sprint(f.DefaultValueInterface)
+		}
 	}
 	return fi
 }
@@ -832,10 +860,7 @@ func expectedFKColumns(model interface{}) []string {
 
 // roundSig: known-finding signature of a round input.
 func roundSig(in RoundIn) string {
-	if in.Pair == "P14" {
-		return "numeric-default-in-noncanonical-spelling-realtered"
-	}
-	return ""
+	return "" // (the P14 finding is fixed in /repo: fa267c0)
 }
 
 // notMigrated: names of the fields excluded from migration (their columns need not exist)
@@ -1065,9 +1090,6 @@ func main() {
 	r := lib.NewRng(a.Seed)
 	// round cases: every pair, with and without rows
 	for _, p := range pairs {
-		if p.Name == "P14" {
-			continue // known finding: replayed from the corpus only
-		}
 		for _, n := range []int{0, 3} {
 			addRound("main", RoundIn{Pair: p.Name, Rows: n, Seed: r.U64()})
 		}
@@ -1117,6 +1139,6 @@ func main() {
 		}
 		addDecide(kind, fi, ri)
 	}
-	out.Extra["rule"] = "cases = (a) decide: generated schema.Field (data type from a 24-word vocabulary with sizes/precisions/case/space variants, primary key, size, precision, not null, default value and DefaultValueInterface, time/bool/other, comment, unique, IgnoreMigration) x generated reported column type (type name related or unrelated, aliases, length/precision/nullable/default/comment/unique each with an ok flag) fed to the real Migrator.MigrateColumn with a recording migrator; (b) round: 13 hand-written model pairs (incl. composite / partial / unique / sorted index options placed on any member field, type: tags carrying their length, fields excluded from migration whose column does not exist, mixed-case column: tags and many2many over unique non-primary references with a link test), the relation pairs also under DisableForeignKeyConstraintWhenMigrating / IgnoreRelationshipsWhenMigrating / both (v1, v2 = v1 + fields/indexes/unique index/check constraints; sizes, not null, literal/bool/null defaults, times, bytes, embedded prefix, renamed column, json serializer, unique, check, composite key and index, foreign key) on real SQLite through the recording driver, with 0 and 3 rows; (c) reorder: ReorderModels on random subsets of 7 models with chain/diamond foreign keys. distinct = distinct input shapes; non-trivial = decision is alter or a unique change / rows present / more than one model"
+	out.Extra["rule"] = "cases = (a) decide: generated schema.Field (data type from a 24-word vocabulary with sizes/precisions/case/space variants, primary key, size, precision, not null, default value and DefaultValueInterface, time/bool/other, comment, unique, IgnoreMigration) x generated reported column type (type name related or unrelated, aliases, length/precision/nullable/default/comment/unique each with an ok flag) fed to the real Migrator.MigrateColumn with a recording migrator; (b) round: 14 hand-written model pairs (incl. composite / partial / unique / sorted index options placed on any member field, type: tags carrying their length, fields excluded from migration whose column does not exist, mixed-case column: tags and many2many over unique non-primary references with a link test), the relation pairs also under DisableForeignKeyConstraintWhenMigrating / IgnoreRelationshipsWhenMigrating / both (v1, v2 = v1 + fields/indexes/unique index/check constraints; sizes, not null, literal/bool/null defaults, times, bytes, embedded prefix, renamed column, json serializer, unique, check, composite key and index, foreign key) on real SQLite through the recording driver, with 0 and 3 rows; (c) reorder: ReorderModels on random subsets of 7 models with chain/diamond foreign keys. distinct = distinct input shapes; non-trivial = decision is alter or a unique change / rows present / more than one model"
 	lib.Must(out.Flush())
 }
